@@ -308,6 +308,10 @@ func c13Exprs(e *Env) []vexpr {
 		// a dot-imported type of an internal package, mentioned as an embedded field (the identifier
 		// then stands for the field and for the type)
 		vexpr{Expr: "struct{ T }{}", Type: "interface{}", Iface: "interface{}", Class: "reject-cross", Why: "embedded field naming a dot-imported type of an internal package", Kind: "embedded-dot-imported-internal-type", DotInternal: true},
+		// selecting an exported field of a value whose TYPE comes from an internal package names
+		// nothing of that package
+		vexpr{Expr: "@VW.Inner.N", Type: "int", Class: "accept", Why: "field selection through a field typed by an internal package", Kind: "selector-through-internal-typed-field", DotInternal: true},
+		vexpr{Expr: "@VW.Inner.N + 1", Type: "int", Class: "accept", Why: "field selection through a field typed by an internal package", Kind: "selector-through-internal-typed-field", DotInternal: true},
 		vexpr{Expr: "[]T{{N: 1}}", Type: "interface{}", Iface: "interface{}", Class: "reject-cross", Why: "dot-imported type of an internal package", Kind: "dot-imported-internal-type", DotInternal: true},
 		// a literal without keys assigns the unexported fields too: legal only where they are visible
 		vexpr{Expr: "@UPos{1, 2}", Type: "@UPos", Class: "reject-cross", Why: "positional literal of a struct with an unexported field", Kind: "unexported-field-positional"},
@@ -387,6 +391,10 @@ func c13Program(id string, cases []c13Case) *Program {
 	}
 	var homeSrc, sets, injs, drv strings.Builder
 	fmt.Fprintf(&homeSrc, "package %s\n\nimport (\n\t\"%s/tr\"\n%s)\n\nvar _ = tr.New\n\n%s", home, ModulePath, dotImp, dotUse)
+	if dotImp != "" {
+		// an exported variable whose type has a field of the internal package's type
+		homeSrc.WriteString("type WT struct{ Inner T }\n\nfunc (t WT) Num() int { return t.Inner.N }\n\nvar VW = WT{Inner: T{N: 5}}\n\n")
+	}
 	fmt.Fprintf(&sets, "package %s\n\nimport (\n\t\"github.com/google/wire\"\n%s)\n\nvar _ = wire.NewSet\n\n%s", home, dotImp, dotUse)
 	injs.WriteString("//go:build wireinject\n// +build wireinject\n\npackage app\n\nimport (\n\t\"github.com/google/wire\"\n")
 	if !cross {
